@@ -139,6 +139,11 @@ func (r *renderer) expr(ts []etok) string {
 			sb.WriteString("(")
 		case 'R':
 			sb.WriteString(")")
+		case 'n':
+			if !r.plain && r.rng.Intn(12) == 0 {
+				sb.WriteString(strings.Repeat("0", 1+r.rng.Intn(3))) // leading zeros are not octal in Redcode
+			}
+			sb.WriteString(t.s)
 		default:
 			sb.WriteString(t.s)
 		}
@@ -301,7 +306,7 @@ func (e *exprEnv) leaf() []etok {
 	}
 	lits := []string{"0", "1", "2", "3", "4", "5", "7", "10", "16", "100"}
 	if e.big {
-		lits = append(lits, "8000", "65535", "46340", "2147483647", "1000000")
+		lits = append(lits, "8000", "65535", "46340", "2147483647", "1000000", "2147483648", "2147483646", "4294967296")
 	}
 	return []etok{{'n', lits[e.rng.Intn(len(lits))]}}
 }
@@ -462,10 +467,36 @@ func genProgram(rng *rand.Rand, cfg gmars.SimulatorConfig, o progOpts) []item {
 	consts := []string{"CORESIZE", "MAXLENGTH", "MAXPROCESSES", "MINDISTANCE"}
 	var equs []item
 	names := append(append([]string{}, allLabels...), consts...)
-	for rng.Intn(5) < 2 && len(equs) < 4 {
+	for rng.Intn(5) < 2 && len(equs) < 60 && rng.Intn(8) != 0 {
 		env := &exprEnv{rng: rng, names: names, big: o.bigExpr}
 		nm := ident(rng, used)
 		equs = append(equs, item{kind: 'Q', name: nm, expr: env.expr(1)})
+		names = append(names, nm)
+	}
+	if rng.Intn(6) == 0 {
+		// a deep chain of EQUs, each defined through the next (placed in any order later)
+		depth := 9 + rng.Intn(37)
+		prev := ""
+		for d := 0; d < depth; d++ {
+			nm := ident(rng, used)
+			var e []etok
+			if prev == "" {
+				e = []etok{{'n', fmt.Sprint(1 + rng.Intn(5))}}
+			} else {
+				e = []etok{{'t', prev}, {'o', "+"}, {'n', "1"}}
+				if rng.Intn(4) == 0 {
+					e = []etok{{'t', prev}}
+				}
+			}
+			equs = append(equs, item{kind: 'Q', name: nm, expr: e})
+			prev = nm
+		}
+		names = append(names, prev, prev)
+	}
+	if rng.Intn(25) == 0 {
+		// an EQU whose text begins with an addressing-mode symbol: not an expression
+		nm := ident(rng, used)
+		equs = append(equs, item{kind: 'Q', name: nm, expr: []etok{{'o', []string{"*", "<", "#", "@", "{"}[rng.Intn(5)]}, {'n', "2"}}})
 		names = append(names, nm)
 	}
 	if rng.Intn(60) == 0 && len(equs) > 0 { // an EQU cycle: must be rejected
@@ -636,6 +667,10 @@ func genForBlock(rng *rand.Rand, used map[string]bool, outer []string, countName
 	}
 	counters := append(append([]string{}, outer...), f.name)
 	env := &exprEnv{rng: rng, names: append(append([]string{}, counters...), f.labels...)}
+	if tw, ok := vals["\x00twin"]; ok && tw >= 0 {
+		// a symbol that differs from a counter only in letter case must NOT be substituted
+		env.names = append(env.names, caseTwin(f.name))
+	}
 	nb := 1 + rng.Intn(3)
 	o := progOpts{legacy: legacy}
 	for i := 0; i < nb; i++ {
@@ -652,10 +687,28 @@ func genForBlock(rng *rand.Rand, used map[string]bool, outer []string, countName
 	return f
 }
 
+func caseTwin(s string) string {
+	b := []byte(s)
+	for i := range b {
+		switch {
+		case b[i] >= 'a' && b[i] <= 'z':
+			b[i] -= 32
+		case b[i] >= 'A' && b[i] <= 'Z':
+			b[i] += 32
+		}
+	}
+	return string(b)
+}
+
 func genForProgram(rng *rand.Rand, legacy bool) ([]item, []item) {
 	used := map[string]bool{}
 	vals := map[string]int{}
 	var items []item
+	twins := rng.Intn(4) == 0
+	if twins {
+		vals["\x00twin"] = 1
+	}
+	defer delete(vals, "\x00twin")
 	var countNames []string
 	for rng.Intn(2) == 0 && len(countNames) < 2 {
 		nm := ident(rng, used)
@@ -663,6 +716,22 @@ func genForProgram(rng *rand.Rand, legacy bool) ([]item, []item) {
 		vals[nm] = v
 		countNames = append(countNames, nm)
 		items = append(items, item{kind: 'Q', name: nm, expr: []etok{{'n', fmt.Sprint(v)}}})
+	}
+	if rng.Intn(5) == 0 {
+		// a count reached through a chain of EQUs
+		depth := 3 + rng.Intn(14)
+		prev, v := "", rng.Intn(4)
+		for d := 0; d < depth; d++ {
+			nm := ident(rng, used)
+			if prev == "" {
+				items = append(items, item{kind: 'Q', name: nm, expr: []etok{{'n', fmt.Sprint(v)}}})
+			} else {
+				items = append(items, item{kind: 'Q', name: nm, expr: []etok{{'t', prev}}})
+			}
+			prev = nm
+		}
+		vals[prev] = v
+		countNames = append(countNames, prev)
 	}
 	budget := 12
 	if rng.Intn(4) == 0 {
